@@ -374,23 +374,68 @@ def _calls_of_stmt(st) -> List[ast.Call]:
 # ------------------------------------------------------------------------------------------------
 # R1 — solver validation and dispatch
 # ------------------------------------------------------------------------------------------------
-def _solver_param(f, rid) -> str:
-    if "solver" not in f.params:
-        raise AnalysisError(f"{rid}: {f.qual} has no parameter `solver` (unrecognised signature)")
-    if _stores(f, "solver"):
-        raise AnalysisError(f"{rid}: {f.qual} re-binds `solver` (dispatch cannot be followed)")
-    return "solver"
+def _solver_param(f, rid, pname: str = "solver") -> str:
+    if pname not in f.params:
+        raise AnalysisError(f"{rid}: {f.qual} has no parameter `{pname}` (unrecognised signature)")
+    if _stores(f, pname):
+        raise AnalysisError(f"{rid}: {f.qual} re-binds `{pname}` (dispatch cannot be followed)")
+    return pname
 
 
-def _membership_accept_label(test: ast.AST, f, pname: str) -> Optional[str]:
-    """`solver not in self.SUPPORTED_SOLVERS` -> 'false' (label of the accepting edge); `solver in ...` -> 'true'."""
-    e, neg = _strip_not(test)
-    if not (isinstance(e, ast.Compare) and len(e.ops) == 1 and isinstance(e.left, ast.Name) and e.left.id == pname
-            and isinstance(e.ops[0], (ast.In, ast.NotIn))):
-        return None
-    c = e.comparators[0]
+def _bind_args(callee, call: ast.Call) -> Dict[str, ast.AST]:
+    """parameter name of `callee` -> actual argument expression at `call` (receiver of a method call skipped)."""
+    a = callee.node.args
+    pos = [x.arg for x in a.posonlyargs + a.args]
+    if callee.cls is not None and not callee.is_static and isinstance(call.func, ast.Attribute):
+        pos = pos[1:]
+    out: Dict[str, ast.AST] = {}
+    for i, arg in enumerate(call.args):
+        if isinstance(arg, ast.Starred):
+            break
+        if i < len(pos):
+            out[pos[i]] = arg
+    for k in call.keywords:
+        if k.arg:
+            out[k.arg] = k.value
+    return out
+
+
+def _helper_target(ctx, cls, f, call: ast.Call):
+    """The function a call made inside a method of an instance of `cls` runs: self.m(...) through the MRO of `cls`,
+    a plain name through the module table; None for anything else."""
+    fn = call.func
+    if isinstance(fn, ast.Attribute) and isinstance(fn.value, ast.Name) and f.self_name is not None and fn.value.id == f.self_name:
+        return ctx.repo.lookup_method(cls, fn.attr)
+    if isinstance(fn, ast.Name) and fn.id not in f.nested:
+        r = ctx.repo.resolve_name(f.module, fn.id)
+        return r if r is not None and r.__class__.__name__ == "FunctionInfo" else None
+    if isinstance(fn, ast.Attribute):
+        r = ctx.repo.resolve_expr(f.module, fn)
+        return r if r is not None and r.__class__.__name__ == "FunctionInfo" else None
+    return None
+
+
+def _is_supported_read(ctx, f, c: ast.AST, sup_params=frozenset(), seen: Optional[set] = None) -> Optional[bool]:
+    """Is the expression `c` (the container of a membership test) the SUPPORTED_SOLVERS of the instance?
+    True / False, or None when it is a local that cannot be followed."""
+    if isinstance(c, ast.Call) and isinstance(c.func, ast.Name) and c.func.id in ("tuple", "list", "set", "frozenset") \
+            and len(c.args) == 1 and not c.keywords:
+        return _is_supported_read(ctx, f, c.args[0], sup_params, seen)
+    if isinstance(c, ast.Name):
+        if c.id in sup_params and not _stores(f, c.id):
+            if seen is not None:
+                seen.add(id(c))
+            return True
+        v = single_def_value(ctx, f, c) if isinstance(c.ctx, ast.Load) and getattr(c, "_parent", None) is not None else None
+        if v is None:
+            if c.id in f.params or not ctx.rd(f).is_local(c.id):
+                return False          # a parameter / global that is not the instance's table
+            return None
+        if seen is not None:
+            seen.add(id(c))
+        return _is_supported_read(ctx, f, v, sup_params, seen)
     if not (isinstance(c, ast.Attribute) and c.attr == "SUPPORTED_SOLVERS"):
-        return None
+        return False
     recv = c.value
     okrecv = (isinstance(recv, ast.Name) and recv.id == f.self_name) \
         or (isinstance(recv, ast.Attribute) and recv.attr == "__class__" and isinstance(recv.value, ast.Name) and recv.value.id == f.self_name) \
@@ -398,27 +443,90 @@ def _membership_accept_label(test: ast.AST, f, pname: str) -> Optional[str]:
             and isinstance(recv.args[0], ast.Name) and recv.args[0].id == f.self_name)
     if not okrecv:
         raise AnalysisError(f"C20-R1: {f.qual}: SUPPORTED_SOLVERS is not read through the instance ({ast.unparse(c)}); unrecognised form")
-    accept_on_true = isinstance(e.ops[0], ast.In)
+    if seen is not None:
+        seen.add(id(c))
+    return True
+
+
+def _membership_accept_label(ctx, cls, test: ast.AST, f, pname: str, sup_params=frozenset(), seen: Optional[set] = None,
+                             depth: int = 0) -> Optional[str]:
+    """`solver not in self.SUPPORTED_SOLVERS` -> 'false' (label of the accepting edge); `solver in ...` -> 'true'.
+    The test may be a single-definition alias of the comparison, the container may be an alias of the class table, and the
+    comparison may live in a one-expression helper (`return solver in self.SUPPORTED_SOLVERS`)."""
+    e, neg = _strip_not(test)
+    if isinstance(e, ast.Name) and getattr(e, "_parent", None) is not None:
+        v = single_def_value(ctx, f, e)
+        if v is not None:
+            e2, neg2 = _strip_not(v)
+            e, neg = e2, neg != neg2
+    lab = None
+    if isinstance(e, ast.Compare) and len(e.ops) == 1 and isinstance(e.left, ast.Name) and e.left.id == pname \
+            and isinstance(e.ops[0], (ast.In, ast.NotIn)):
+        isup = _is_supported_read(ctx, f, e.comparators[0], sup_params, seen)
+        if isup is None:
+            raise AnalysisError(f"C20-R1: {f.qual}: the container of `{ast.unparse(e)}` cannot be followed to a single definition")
+        if not isup:
+            return None
+        lab = isinstance(e.ops[0], ast.In)
+    elif isinstance(e, ast.Call) and depth < 3:
+        g = _helper_target(ctx, cls, f, e)
+        if g is None:
+            return None
+        b = _bind_args(g, e)
+        gp = [k for k, v in b.items() if isinstance(v, ast.Name) and v.id == pname]
+        if len(gp) != 1 or _stores(g, gp[0]):
+            return None
+        gsup = frozenset(k for k, v in b.items() if _is_supported_read(ctx, f, v, sup_params) is True)
+        body = [st for st in g.node.body if not _is_docstring(st)]
+        if not (len(body) == 1 and isinstance(body[0], ast.Return) and body[0].value is not None):
+            return None
+        inner = _membership_accept_label(ctx, cls, body[0].value, g, gp[0], gsup, None, depth + 1)
+        if inner is None:
+            return None
+        lab = inner == "true"
+    if lab is None:
+        return None
     if neg:
-        accept_on_true = not accept_on_true
-    return "true" if accept_on_true else "false"
+        lab = not lab
+    return "true" if lab else "false"
 
 
-def _validator_sound(ctx, rid, cls, vf, depth=0):
+def _unrecognised_supported_reads(f, seen: set) -> List[ast.AST]:
+    """Reads of SUPPORTED_SOLVERS in `f` that are neither a recognised membership container nor message formatting."""
+    def formatting(n):
+        return any(isinstance(a, (ast.JoinedStr, ast.Raise)) for a in ancestors(n))
+    out = []
+    for n in walk_shallow(f.node):
+        if not (isinstance(n, ast.Attribute) and n.attr == "SUPPORTED_SOLVERS" and isinstance(n.ctx, ast.Load)):
+            continue
+        if id(n) in seen or formatting(n):
+            continue
+        st = stmt_of_any(n)
+        if isinstance(st, ast.Assign) and st.value is n and len(st.targets) == 1 and isinstance(st.targets[0], ast.Name):
+            alias = st.targets[0].id
+            uses = [u for u in walk_shallow(f.node) if isinstance(u, ast.Name) and u.id == alias and isinstance(u.ctx, ast.Load)]
+            if all(id(u) in seen or formatting(u) for u in uses):
+                continue
+        out.append(n)
+    return out
+
+
+def _validator_sound(ctx, rid, cls, vf, depth=0, pname: str = "solver", sup_params=frozenset()):
     """(ok, reason, facts): does the validator `vf`, run on an instance of `cls`, return normally only for accepted names?"""
     if depth > 6:
         raise AnalysisError(f"{rid}: validator chain too deep")
-    pname = _solver_param(vf, rid)
+    pname = _solver_param(vf, rid, pname)
     cfg = ctx.cfg(vf)
     paths = [p for p in enumerate_paths(cfg) if p[-1] is cfg.EXIT]
     facts = {"validator": vf.qual, "normal_paths": len(paths)}
     if not paths:
         return True, "validator never returns normally", facts
+    seen: set = set()
     for p in paths:
         accepted = False
         for a, b in zip(p, p[1:]):
-            if isinstance(a, ast.If):
-                lab = _membership_accept_label(a.test, vf, pname)
+            if isinstance(a, (ast.If, ast.While)):
+                lab = _membership_accept_label(ctx, cls, a.test, vf, pname, sup_params, seen)
                 kind = edge_kind(cfg, a, b)
                 if lab is not None and lab == kind:
                     accepted = True
@@ -441,16 +549,83 @@ def _validator_sound(ctx, rid, cls, vf, depth=0):
                             accepted = True
                         else:
                             return False, f"delegates to {nxt.qualname}, which is not sound: {why}", facts
+                    elif not _super_call(c):
+                        # an extracted helper that is handed the name (and possibly the table) and performs the test
+                        g = _helper_target(ctx, cls, vf, c)
+                        if g is None or g == vf:
+                            continue
+                        bnd = _bind_args(g, c)
+                        gp = [k for k, v in bnd.items() if isinstance(v, ast.Name) and v.id == pname]
+                        if len(gp) != 1 or gp[0] not in g.params or _stores(g, gp[0]):
+                            continue
+                        gsup = frozenset(k for k, v in bnd.items() if _is_supported_read(ctx, vf, v, sup_params, seen) is True)
+                        okn, _why, _ = _validator_sound(ctx, rid, cls, g, depth + 1, gp[0], gsup)
+                        if okn:
+                            accepted = True
+                if accepted:
+                    break
         if not accepted:
+            unrec = _unrecognised_supported_reads(vf, seen)
+            if unrec:
+                raise AnalysisError(f"{rid}: {vf.qual}: SUPPORTED_SOLVERS is consulted in a form that is not recognised "
+                                    f"(`{norm(stmt_of_any(unrec[0]), 80)}`); cannot decide whether path {cfg.path_str(p)} accepts only declared names")
             facts["witness"] = cfg.path_str(p)
             return False, ("a path returns normally without the name having passed `solver in self.SUPPORTED_SOLVERS` "
                            f"(path {cfg.path_str(p)})"), facts
     return True, "every normal return has passed the membership test (or a sound super() validator / the frozen shortcut)", facts
 
 
-def _dispatch_points(f, pname):
+def _is_impl_ref(n: ast.AST) -> bool:
+    return isinstance(n, ast.Attribute) and n.attr.startswith("_solve_") and isinstance(n.ctx, ast.Load)
+
+
+def _impl_aliases(ctx, rid, f) -> Dict[int, List[str]]:
+    """id(call) -> implementation names, for calls `alias(...)` where every definition of the local `alias` that reaches
+    the call binds a `<recv>._solve_<name>` method (the dispatcher picks the bound method first and calls it once).
+    Any other use of a `_solve_<name>` reference is an unrecognised dispatch form."""
+    rd = ctx.rd(f)
+    out: Dict[int, List[str]] = {}
+    alias_defs = set()
+    for c in walk_shallow(f.node):
+        if not (isinstance(c, ast.Call) and isinstance(c.func, ast.Name)):
+            continue
+        defs = rd.defs_reaching(c.func)
+        if not defs:
+            continue
+        names = []
+        for d in defs:
+            from engine.dataflow import assigned_value
+            v = assigned_value(d, c.func.id) if isinstance(d, ast.AST) else None
+            vs = [v.body, v.orelse] if isinstance(v, ast.IfExp) else [v]
+            if not all(x is not None and _is_impl_ref(x) for x in vs):
+                names = None
+                break
+            names += [x.attr for x in vs]
+            alias_defs.update(id(x) for x in vs)
+        if names:
+            out[id(c)] = names
+    alias_names = {c.func.id for c in walk_shallow(f.node) if isinstance(c, ast.Call) and id(c) in out}
+    for n in walk_shallow(f.node):
+        if _is_impl_ref(n):
+            p_ = parent(n)
+            if isinstance(p_, ast.Call) and p_.func is n:
+                continue
+            if id(n) in alias_defs:
+                continue
+            raise AnalysisError(f"{rid}: {f.qual}: `{ast.unparse(n)}` is referenced without being called "
+                                f"(`{norm(stmt_of_any(n), 80)}`); dispatch through values is not a recognised form")
+        if isinstance(n, ast.Name) and n.id in alias_names and isinstance(n.ctx, ast.Load):
+            p_ = parent(n)
+            if not (isinstance(p_, ast.Call) and p_.func is n and id(p_) in out):
+                raise AnalysisError(f"{rid}: {f.qual}: the selected solver method `{n.id}` is used other than by calling it "
+                                    f"(`{norm(stmt_of_any(n), 80)}`)")
+    return out
+
+
+def _dispatch_points(ctx, rid, f, pname):
     """(implementation-call statements, super()._solve statements, inline solver blocks) of a `_solve` override."""
     impl, sup, inline = [], [], []
+    aliases = _impl_aliases(ctx, rid, f)
     for st in walk_shallow(f.node):
         if not isinstance(st, ast.stmt) or isinstance(st, (ast.If, ast.For, ast.While, ast.Try, ast.With)):
             continue
@@ -459,11 +634,15 @@ def _dispatch_points(f, pname):
                 sup.append((st, c))
             elif isinstance(c.func, ast.Attribute) and c.func.attr.startswith("_solve_"):
                 impl.append((st, c))
+            elif id(c) in aliases:
+                impl.append((st, c))
 
     def has_dispatch(stmts):
         for b in stmts:
             for n in ast.walk(b):
-                if isinstance(n, ast.Call) and isinstance(n.func, ast.Attribute) and (n.func.attr.startswith("_solve_") or n.func.attr == "_solve"):
+                if isinstance(n, ast.Attribute) and (n.attr.startswith("_solve_") or n.attr == "_solve"):
+                    return True
+                if isinstance(n, ast.Call) and id(n) in aliases:
                     return True
         return False
     for st in walk_shallow(f.node):
@@ -548,7 +727,7 @@ def _signature(ctx, rid, cls, f, name, depth=0):
     env = {pname: name}
     reach = []
     find_path(cfg, [cfg.ENTRY], lambda n: (reach.append(n), False)[1], env=env)
-    impl, sup, inline = _dispatch_points(f, pname)
+    impl, sup, inline = _dispatch_points(ctx, rid, f, pname)
     sig, hits = set(), set()
     reach_ids = {id(n) for n in reach}
     for n in reach:
@@ -606,7 +785,7 @@ def r1_solver_validation(ctx, rid):
         _check_solver_uses(rid, f, pname)
         cfg = ctx.cfg(f)
         vs = _validate_stmts(f, cfg, pname)
-        impl, sup, inline = _dispatch_points(f, pname)
+        impl, sup, inline = _dispatch_points(ctx, rid, f, pname)
 
         def dominated(st):
             return any(cfg.dominates(v, st) for v in vs)
